@@ -14,7 +14,8 @@ Rust sources on every run.
   debian-control/src/lossless/changes.rs  get_pool_path: `source[..k]` and its `starts_with` guard
 
 Data only.  Anything outside the small statement language below sets
-`bytesites_recognised := false` (and the arm is left out), which breaks proofs/ByteLexP.v.
+`lex_sites_recognised` / `vcs_sites_recognised` / `pool_sites_recognised` to false (an
+unrecognised arm is left out), which breaks proofs/ByteLexP.v / proofs/ByteVcsP.v.
 The file is only rewritten when its content changes."""
 import os, re, sys
 
@@ -260,7 +261,9 @@ def main(repo, gen):
              "(* Changes::get_pool_path: if source.starts_with(guard) { guard } else { source[..k].to_lowercase() } *)",
              f"Definition pool_guard_src : str := {coq_str(p['guard'])}.",
              f"Definition pool_prefix_src : nat := {p['prefix']}.", "",
-             f"Definition bytesites_recognised : bool := {'true' if ok else 'false'}."]
+             f"Definition lex_sites_recognised : bool := {'true' if ok1 else 'false'}.",
+             f"Definition vcs_sites_recognised : bool := {'true' if ok2 else 'false'}.",
+             f"Definition pool_sites_recognised : bool := {'true' if ok3 else 'false'}."]
     for n in notes: lines.append("(* NOT RECOGNISED: " + n.replace("*)", "* )").replace("(*", "( *") + " *)")
     text = "\n".join(lines) + "\n"
     path = os.path.join(gen, "ByteSites_gen.v")
